@@ -22,6 +22,7 @@ import (
 	"errors"
 	"fmt"
 	"math"
+	"runtime/debug"
 	"sort"
 	"strings"
 
@@ -565,6 +566,21 @@ func ExecuteQuery(root *structs.ASTNode, aggs *structs.QueryAggregators, qid uin
 
 func ExecuteQueryInternalNewPipeline(qid uint64, isAsync bool, root *structs.ASTNode, aggs *structs.QueryAggregators,
 	qc *structs.QueryContext, rQuery *query.RunningQueryState, sizeLimit uint64) {
+	// This function is the root of the query goroutine. Nothing above it recovers, so a panic in
+	// any command processor would end the whole server process: report it as the error of this
+	// query instead.
+	defer func() {
+		if r := recover(); r != nil {
+			err := fmt.Errorf("qid=%v, ExecuteQueryInternalNewPipeline: query execution panicked: %v", qid, r)
+			log.Errorf("%v\n%s", err, debug.Stack())
+			rQuery.StateChan <- &query.QueryStateChanData{
+				StateName: query.ERROR,
+				Error:     err,
+				Qid:       qid,
+			}
+		}
+	}()
+
 	queryProcessor, err := SetupPipeResQuery(root, aggs, qid, qc, qc.Scroll, sizeLimit)
 	if err != nil {
 		log.Errorf("qid=%v, ExecuteQueryInternalNewPipeline: failed to SetupPipeResQuery, err: %v", qid, err)
